@@ -1468,6 +1468,48 @@ def fam_scalar_bool(chk, impl):
                           signature={"path": "basic", "class": "scalar-bool-as-int"})
 
 
+def fam_element_kinds(chk, impl):
+    """One-element indices of every kind NumPy distinguishes (Python / NumPy ints, integral and fractional floats, 0-d arrays of
+    int / float / bool dtype, 0-d dask arrays of int / float dtype, 1-element dask arrays, strings, complex): NumPy is the oracle
+    for accept / reject and for the value.  A 0-d dask INTEGER index is the only kind without a NumPy counterpart: the oracle is
+    the same index computed first."""
+    import dask_array as da
+    a = base_array((5, 4))
+    chunks = ((2, 3), (1, 3))
+    x = impl.arr(a, chunks)
+    kinds = [("int", 2), ("neg-int", -1), ("np.int64", np.int64(3)), ("np.uint8", np.uint8(1)), ("np.int8-neg", np.int8(-2)),
+             ("float-integral", 2.0), ("float-fractional", 1.5), ("np.float64-integral", np.float64(1.0)),
+             ("0d-int-array", np.array(3)), ("0d-float-array", np.array(2.0)), ("0d-float-fractional-array", np.array(2.5)),
+             ("complex", 1 + 0j), ("str", "1"), ("out-of-range", 5), ("neg-out-of-range", -6),
+             ("1-elem-int-array", np.array([2])), ("1-elem-float-array", np.array([2.0])), ("float-list", [1.0, 2.0]),
+             ("dask-0d-int", "dask:int"), ("dask-0d-float", "dask:float"), ("dask-1elem-float", "dask:float1")]
+    for name, k in kinds:
+        for pos in (0, 1):
+            if isinstance(k, str) and k.startswith("dask:"):
+                kd = {"dask:int": lambda: da.from_array(np.array(2), chunks=()), "dask:float": lambda: da.from_array(np.array(2.0), chunks=()),
+                      "dask:float1": lambda: da.from_array(np.array([2.0]), chunks=1)}[k]()
+                kn = np.asarray(kd.compute(scheduler="sync"))
+            else:
+                kd = kn = k
+            idx_d = (kd,) if pos == 0 else (slice(None), kd)
+            idx_n = (kn,) if pos == 0 else (slice(None), kn)
+            want, werr = np_eval(lambda: a[idx_n])
+            got, gerr = da_eval(lambda: x[idx_d])
+            data = {"fn": "element-kinds", "kind": name, "axis": pos, "shape": (5, 4), "chunks": chunks, "index": repr(k)}
+            chk.count("element-kind:" + name)
+            chk.case(("element-kinds", name, pos), nontrivial=True, sample=data)
+            if werr is not None and gerr is None and kd is k and name in ("float-integral", "np.float64-integral", "1-elem-float-array", "float-list"):
+                # documented leniency (doctest of sanitize_index: `sanitize_index(1.0) == 1`): a NON-dask float index with integral
+                # value(s) is read as the integer(s); what must hold then is NumPy's result for the integer index
+                ki = int(k) if not isinstance(k, (list, np.ndarray)) else np.asarray(k).astype(int)
+                want_i = a[(ki,) if pos == 0 else (slice(None), ki)]
+                if same(got, want_i):
+                    chk.count("element-kind:integral-float-read-as-int")
+                    chk.traces_validated += 1
+                    continue
+            judge(chk, "element-kinds", data, got, gerr, want, werr, extra_sig={"kind": name})
+
+
 # ---------------------------------------------------------------------------
 def replay(path):
     r = json.load(open(path))
@@ -1557,6 +1599,7 @@ def run(chk: Check):
     chk.run_proofs()
     impl = Impl()
     fam_scalar_bool(chk, impl)
+    fam_element_kinds(chk, impl)
     fam_basic(chk, impl, chk.tier)
     fam_list(chk, impl, chk.tier)
     fam_bool(chk, impl, chk.tier)
